@@ -629,6 +629,19 @@ func (c *cmp) findChecks(rng *rand.Rand, res *schema.Resolver, pairs int) {
 						}
 						c.out = append(c.out, Disc{Class: "find-nonexistent", Detail: fmt.Sprintf("Find(%s) from %s returned %s", bogus, a.Path(), got.Path()), Facts: map[string]any{"bogus_step_under": under}})
 					}
+					// the name of the module is no step of a schema path (Path() prints it in
+					// front, a path as written does not have it): unless the module has a top-level
+					// node of that name, a path that begins with it names nothing
+					if mroot := rootOf(b); mroot.Children[mroot.Name] == nil {
+						mp := "/" + pfx + ":" + mroot.Name
+						for _, n := range ns {
+							mp += "/" + pfx + ":" + n
+						}
+						c.Lookups++
+						if got := ea.Find(mp); got != nil {
+							c.out = append(c.out, Disc{Class: "find-nonexistent", Detail: fmt.Sprintf("Find(%s) from %s returned %s: the first step is the name of the module, which has no node of that name", mp, a.Path(), got.Path()), Facts: map[string]any{"bogus_step_under": "module-name"}})
+						}
+					}
 					// the path without the choices and cases on the way (what the path of the node
 					// in a data tree would be) is no schema path: the node reached so far has no
 					// child of that name
